@@ -170,5 +170,12 @@ opened('F-ORDER', ['C18'], 'tables are sorted by descending number of inline key
        {'C18': dict(schema=model.to_json(s), how='built', text=None)}, 'pydbml/renderer/sql/default/utils.py:reorder_tables_for_sql', kind='local',
        pinned='test_utils.py::test_reorder_tables, test_data/integration1.sql')
 
+fixed('F-ALIASSCHEMA', ['C06', 'C05'], '44e1889', 'a schema-qualified name whose last part equals a table alias (nosuch.U) was looked up as the alias and bound to the aliased table instead of raising TableNotFoundError',
+      {'C06': dict(kind='ref_missing_table', text='Table users as U {\n  id int\n}\nTable posts {\n  uid int\n}\nRef: posts.uid > nosuch.U.id\n', allow_properties=False)},
+      'pydbml/parser/parser.py:locate_table')
+
+fixed('F-DOUBLEBOM', ['C12'], '8760c83', 'the constructor stripped a byte order mark and then called parse, which strips one too: a text starting with two U+FEFF was accepted by PyDBML(source) and rejected by PyDBML.parse / parse_file',
+      {'C12': dict(text='\ufeff\ufeffTable t {\n  id int\n}\n', options='default')}, 'pydbml/parser/parser.py:PyDBML.__new__')
+
 json.dump({'findings': F}, open(os.path.join(ROOT, 'known_findings.json'), 'w'), indent=1, ensure_ascii=False)
 print(len(F), 'findings written')
